@@ -177,6 +177,23 @@ func spThreeRoles(e enum.Embed, stride uint64, nSubj, level int) *BoolSpace {
 		}}
 }
 
+// spNudged: B1n - a lattice triangle a,b,c closed through a fourth vertex one unit away from a (8 directions):
+// a one-unit closing edge, so the two long edges meeting there cross each other (or not) within a unit of a and
+// rounded crossing points fall onto existing vertices.
+func spNudged(e enum.Embed, level int) *BoolSpace {
+	cnt := enum.PathCount(3, 3)
+	dirs := [8][2]int64{{1, 0}, {1, 1}, {0, 1}, {-1, 1}, {-1, 0}, {-1, -1}, {0, -1}, {1, -1}}
+	return &BoolSpace{Name: fmt.Sprintf("B1n/P(3,3) closed through a vertex one unit from the first (8 directions)/%s", e.Name), Level: level, Size: cnt * 8, E: e,
+		Gen: func(idx uint64, g *genBuf) (Paths, Paths) {
+			g.reset()
+			g.p[0] = enum.UnrankPath(idx%cnt, 3, 3, e, g.p[0])
+			d := dirs[idx/cnt]
+			g.p[0] = append(g.p[0], Pt{X: g.p[0][0].X + d[0], Y: g.p[0][0].Y + d[1]})
+			g.s = append(g.s, g.p[0])
+			return g.s, nil
+		}}
+}
+
 // spNoSubject: B0 - no subject at all (nil, empty set, set holding one empty path) and a clip path of P(3,n):
 // "inside subject" is false everywhere, so Union and Xor return the clip region.
 func spNoSubject(e enum.Embed, n, level int) *BoolSpace {
@@ -234,7 +251,7 @@ func boolSpaces(tier string) []*BoolSpace {
 	var out []*BoolSpace
 	region := []enum.Embed{enum.Eax, enum.Esh}
 	if tier == "quick" {
-		out = append(out, spNoSubject(enum.Eax, 3, 1), spNoSubject(enum.Eax, 4, 2))
+		out = append(out, spNoSubject(enum.Eax, 3, 1), spNoSubject(enum.Eax, 4, 2), spNudged(enum.Eax, 2), spNudged(enum.Ean, 2), spNudged(enum.Esh, 2))
 		for _, e := range region {
 			out = append(out, spSingle(e, 3, 3, 1), spSingle(e, 3, 4, 2), spSingle(e, 3, 5, 3))
 		}
@@ -246,7 +263,7 @@ func boolSpaces(tier string) []*BoolSpace {
 		return out
 	}
 	all := []enum.Embed{enum.Eax, enum.Esh, enum.Ean, enum.Ebig}
-	out = append(out, spNoSubject(enum.Eax, 3, 1), spNoSubject(enum.Eax, 4, 2), spNoSubject(enum.Esh, 5, 3))
+	out = append(out, spNoSubject(enum.Eax, 3, 1), spNoSubject(enum.Eax, 4, 2), spNoSubject(enum.Esh, 5, 3), spNudged(enum.Eax, 2), spNudged(enum.Ean, 2), spNudged(enum.Esh, 2))
 	for _, e := range all {
 		out = append(out, spSingle(e, 3, 3, 1), spSingle(e, 3, 4, 2), spSingle(e, 3, 5, 3), spSingle(e, 3, 6, 4))
 	}
